@@ -129,7 +129,11 @@ func runC14(c *Ctx) {
 	root := NewRng(c.Seed).Fork(14)
 	parallel(nWS, 14, func(wi int) {
 		r := root.Fork(uint64(wi))
-		sw := GenScopeWS(r, ScopeCfg{Unique: true, NoMulti: true, NFiles: r.Range(1, 3), Depth: r.Range(2, 4)})
+		// half of the workspaces keep one statement per line; the others join lines, so that blocks open and close on the
+		// cursor's line (one-line ifs, two callbacks in one call, sibling blocks on one line)
+		join := []int{0, 0, 50, 100}[r.Intn(4)]
+		sw := GenScopeWS(r, ScopeCfg{Unique: true, NoMulti: true, NFiles: r.Range(1, 3), Depth: r.Range(2, 4), JoinPct: join})
+		c.Count(fmt.Sprintf("workspaces_line_join_%d_percent", join), 1)
 		c.Eval(1)
 		ws, srv, err := startScopeServer(c, sw, fmt.Sprintf("c14w%d", wi))
 		if err != nil {
@@ -139,6 +143,12 @@ func runC14(c *Ctx) {
 		defer ws.Remove()
 		defer srv.Close()
 		ver := 1
+		localNames := map[string]bool{}
+		for _, f := range sw.Files {
+			for _, d := range f.Bind.Decls {
+				localNames[d.Name] = true
+			}
+		}
 		for _, f := range sw.Files {
 			sites := c14Sites(f)
 			if len(sites) == 0 {
@@ -210,7 +220,9 @@ func runC14(c *Ctx) {
 					}
 				}
 				for g, defs := range sw.GlobalDefs {
-					if len(defs) > 0 && strings.HasPrefix(g, prefix) {
+					// with workspace-unique names a global can only share its name with a local through a use inside that
+					// local's own initialiser / for header (which Lua binds to the global): C05-K1's class, not asserted here
+					if len(defs) > 0 && strings.HasPrefix(g, prefix) && !localNames[g] {
 						must[g] = true
 					}
 				}
@@ -250,7 +262,9 @@ func runC14(c *Ctx) {
 				c.Distinct(newText + fmt.Sprint(cursor))
 				// syntactic context of the probe (for signatures): class of the prefix identifier as an occurrence
 				ctxCls := "plain"
-				if po := br.ByOff[cursor-len(prefix)]; po != nil {
+				if inForHeaderFuncLit(pr.Chunk, cursor) {
+					ctxCls = "within-function-literal-in-for-header" // decides the scope found for the cursor whatever is nested inside
+				} else if po := br.ByOff[cursor-len(prefix)]; po != nil {
 					nf := &SFile{Rel: f.Rel, Text: newText, Src: []byte(newText), Parse: pr, Bind: br}
 					cc := occClass(nf, po)
 					if cc != "plain-read" {
